@@ -1,7 +1,7 @@
 (* C10 - Lazy stepping bounds run-ahead. *)
 From Coq Require Import ZArith List Bool Arith.
 Import ListNotations.
-From MV Require Import Time.Spec Sched.Timing Sched.Inv Sched.Init Sched.Wle Sched.Main Sched.Guards Sched.Final Sched.Later.
+From MV Require Import Time.Spec Sched.Timing Sched.Inv Sched.Init Sched.Wle Sched.Main Sched.Guards Sched.Final Sched.Later Sched.GenView Gen.SchedulerFns Sched.SchedTie.
 Open Scope Z_scope.
 
 (* with lazy_stepping, when i begins a step at t, no simulator j it feeds has a scheduled or in-flight step earlier
@@ -21,3 +21,10 @@ Theorem C10_run_ahead_bound_persists : forall st, static_ok st -> forall s i t m
   forall j d c, In (j,d) (succ_lazy st i) -> In c (cands (sr j)) -> tle (act t d) c = true.
 Proof. exact lazy_bound_over_runs. Qed.
 Print Assumptions C10_run_ahead_bound_persists.
+
+(* tie to the source: the awaited conditions of wait_for_dependencies as regenerated from mosaik/scheduler.py (the third group,
+   under `if lazy_stepping`, is the lazy-stepping guard) hold exactly when the model's guard deps_ok holds *)
+Theorem C10_generated_guard_is_the_model : forall st s i t,
+  wait_for_dependencies_ready (pview s (indel st i)) (pview s (succ_wait st i)) (pview s (succ_lazy st i)) (lazy st) t = deps_ok st s i t.
+Proof. exact tie_wait_for_dependencies. Qed.
+Print Assumptions C10_generated_guard_is_the_model.
